@@ -389,7 +389,7 @@ def payload_bound_of(repo, notes):
 
 def log_write_of(repo, notes):
     """EventLog::append writes the line and flushes, unconditionally; the sidecar append flushes too"""
-    res = {"writes_line": False, "flush": False, "side_flush": False}
+    res = {"writes_line": False, "flush": False, "side_flush": False, "forgets_failed": False}
     p = os.path.join(repo, "crates/rip-log/src/lib.rs")
     if not os.path.exists(p):
         notes.append("rip-log/src/lib.rs: file not found")
@@ -409,6 +409,22 @@ def log_write_of(repo, notes):
         res["flush"] = True
     else:
         notes.append("EventLog::append: `writer.flush()?;` is missing or conditional (a frame handed to append is not on disk when append returns)")
+    # the writer forgets what a failed write / flush left in its buffer (/repo fix W4): the log's writer is a `LogWriter`
+    # whose write, write_all and flush all go through `guarded`, and `guarded` takes the BufWriter apart (`into_parts`:
+    # no flush) when the call returned an error
+    wt = re.search(r"\bwriter\s*:\s*Mutex\s*<\s*(\w+)\s*>", src)
+    gb = fn_body(src, "guarded")
+    im = re.search(r"\bimpl\s+Write\s+for\s+LogWriter\s*\{", src)
+    routed = False
+    if im:
+        ib = src[im.end():brace_end(src, im.end())]
+        routed = all(re.search(r"\bfn\s+" + f + r"\s*\([^)]*\)[^{]*\{\s*self\s*\.\s*guarded\s*\(", ib) for f in ("write", "write_all", "flush"))
+    if wt and wt.group(1) == "LogWriter" and gb is not None and routed:
+        e = re.search(r"\bif\s+result\s*\.\s*is_err\s*\(\s*\)\s*\{", gb)
+        if e and depth_in(gb, e.start()) == 0 and "into_parts" in gb[e.end():brace_end(gb, e.end())] and not re.search(r"\.\s*flush\s*\(", gb[e.end():brace_end(gb, e.end())]):
+            res["forgets_failed"] = True
+    if not res["forgets_failed"]:
+        notes.append("EventLog: the log's writer keeps the bytes of a failed write / flush (no LogWriter::guarded taking the BufWriter apart on error): the line of a refused append is written by the next successful one")
     p2 = os.path.join(repo, "crates/ripd/src/continuity_stream_cache.rs")
     src2 = blank_literals(strip_tests(strip_comments(open(p2).read()))) if os.path.exists(p2) else ""
     b2 = fn_body(src2, "append_best_effort")
@@ -502,7 +518,7 @@ def main():
     lines.append("")
     lines.append(f"Definition gen_ok_log_write : bool := {coq_bool(lok)}.")
     lines.append("Definition gen_log_write : log_write :=")
-    lines.append(f"  {{| lw_writes_line := {coq_bool(lw['writes_line'])}; lw_flush := {coq_bool(lw['flush'])}; lw_side_flush := {coq_bool(lw['side_flush'])} |}}.")
+    lines.append(f"  {{| lw_writes_line := {coq_bool(lw['writes_line'])}; lw_flush := {coq_bool(lw['flush'])}; lw_side_flush := {coq_bool(lw['side_flush'])}; lw_forgets_failed := {coq_bool(lw['forgets_failed'])} |}}.")
     lines.append("Lemma gen_log_write_ok : gen_ok_log_write && wf_log_write gen_log_write = true.")
     lines.append("Proof. vm_compute. reflexivity. Qed.")
     bound, guards = payload_bound_of(a.repo, rnotes)
